@@ -121,6 +121,9 @@ func H_C07_cancel() {
 				break
 			}
 		}
+		// what a caller may do once a receive has failed: read the trailer (and the header)
+		_ = cs.Trailer()
+		cs.Header()
 		// after the receive has reported the end of the stream: later calls fail too
 		out := new(testproto.Msg)
 		lateRecvErr = cs.RecvMsg(out)
